@@ -158,7 +158,9 @@ func (k Keeper) AllocateTokensToStakers(ctx sdk.Context, operatorAddress sdk.Acc
 			remaining = remaining.Sub(rewardToSingleStaker)
 		}
 	}
-	feePool.CommunityPool = feePool.CommunityPool.Add(rewardToAllStakers...)
+	// only what was not credited to the stakers (truncation dust, or everything when no staker
+	// has power) goes to the community pool; the stakers' rewards are already booked above.
+	feePool.CommunityPool = feePool.CommunityPool.Add(remaining...)
 	logger.Info("allocate tokens to stakers successfully", "allocated amount is", rewardToAllStakers.String())
 }
 
